@@ -1070,3 +1070,116 @@ func E6WidthFrame(c *core.Ctx, r *core.Report) {
 	}
 	r.Floor("E6.width-sites", 7)
 }
+
+// E6WindingMode: the scanner's winding mode is selected for what is drawn next.
+func E6WindingMode(c *core.Ctx, r *core.Report) {
+	r.Rule("E6.winding-mode", "Rasterizer.RenderPath: the last scanner.SetWinding call before a fill outline is scanned derives from style.FillRule, and before a stroke outline (a path produced by Stroke(…)) it is SetWinding(true): stroke outlines overlap themselves and each other and are always non-zero")
+	p := c.MustPkg("renderers/rasterizer")
+	info := p.TypesInfo
+	fd := core.MustFuncDecl(p, "Rasterizer.RenderPath")
+	// variables holding stroke outlines
+	strokeVar := map[types.Object]bool{}
+	ast.Inspect(fd.Body, func(n ast.Node) bool {
+		as, ok := n.(*ast.AssignStmt)
+		if !ok || len(as.Lhs) != len(as.Rhs) {
+			return true
+		}
+		for i, rhs := range as.Rhs {
+			isStroke := false
+			ast.Inspect(rhs, func(m ast.Node) bool {
+				if call, ok := m.(*ast.CallExpr); ok {
+					if f := core.CalleeOf(info, call); f != nil && core.QualifiedCallee(f) == core.Module+".Path.Stroke" {
+						isStroke = true
+					}
+				}
+				return true
+			})
+			if id, ok := as.Lhs[i].(*ast.Ident); ok && isStroke {
+				strokeVar[core.ObjOf(info, id)] = true
+			}
+		}
+		return true
+	})
+	type S map[string]bool // possible modes: "unset", "fillrule", "nonzero", "other"
+	n := 0
+	fl := &core.Flow[S]{
+		Join: func(a, b S) S {
+			out := S{}
+			for k := range a {
+				out[k] = true
+			}
+			for k := range b {
+				out[k] = true
+			}
+			return out
+		},
+		Equal: func(a, b S) bool {
+			if len(a) != len(b) {
+				return false
+			}
+			for k := range a {
+				if !b[k] {
+					return false
+				}
+			}
+			return true
+		},
+		Dead:   func() S { return nil },
+		IsDead: func(s S) bool { return s == nil },
+		Exit:   func(ast.Node, S) {},
+		Expr: func(e ast.Expr, s S) S {
+			out := s
+			ast.Inspect(e, func(m ast.Node) bool {
+				call, ok := m.(*ast.CallExpr)
+				if !ok {
+					return true
+				}
+				se, ok := call.Fun.(*ast.SelectorExpr)
+				if !ok {
+					return true
+				}
+				switch se.Sel.Name {
+				case "SetWinding":
+					if len(call.Args) == 1 {
+						arg := types.ExprString(call.Args[0])
+						switch {
+						case arg == "true":
+							out = S{"nonzero": true}
+						case strings.Contains(arg, "FillRule"):
+							out = S{"fillrule": true}
+						default:
+							out = S{"other": true}
+						}
+					}
+				case "ToScanxScanner":
+					id, ok := core.Unparen(se.X).(*ast.Ident)
+					if !ok {
+						return true
+					}
+					n++
+					isStroke := strokeVar[core.ObjOf(info, id)]
+					want, what := "fillrule", "fill outline"
+					if isStroke {
+						want, what = "nonzero", "stroke outline"
+					}
+					key := fmt.Sprintf("renderers/rasterizer.Rasterizer.RenderPath|%s scan #%d", what, n)
+					if len(out) == 1 && out[want] {
+						r.OK("E6.winding-mode", key, c.Pos(call.Pos()), want)
+					} else {
+						var modes []string
+						for k := range out {
+							modes = append(modes, k)
+						}
+						sort.Strings(modes)
+						r.Fail("E6.winding-mode", key, c.Pos(call.Pos()), fmt.Sprintf("the %s is scanned with winding mode %v, it needs %q: with EvenOdd, pixels where stroke outlines overlap (two sub-paths crossing) are left unpainted", what, modes, want))
+					}
+				}
+				return true
+			})
+			return out
+		},
+	}
+	fl.Run(fd.Body, S{"unset": true})
+	r.Count("E6.scan-sites", n)
+	r.Floor("E6.scan-sites", 4)
+}
